@@ -16,7 +16,7 @@ def gen_cases(ctx, n, maxlen):
     tries = 0
     while len(out) < n and tries < 40 * n:
         tries += 1
-        g = M.rand_grammar(ctx.rng)
+        g = M.rand_nullable_grammar(ctx.rng, nT=ctx.rng.randint(1, 2)) if tries % 4 == 0 else M.rand_grammar(ctx.rng)
         if not finitely_ambiguous(g):
             continue
         out.append(g)
